@@ -155,7 +155,9 @@ def plan(pid: str, tier: str, seed: int) -> dict:
             mc=[(n, {"MaxCrashes": 1, "AnyOrder": "FALSE"}, {}) for n in ("chain2", "diamond", "selfloop", "poll")]
                + [(n, {"MaxCrashes": 1, "AnyOrder": "TRUE"}, {}) for n in ("chain2", "termchain")]
                + [("lazychain", {"MaxCrashes": 1, "AnyOrder": "FALSE"}, {}), ("lazy1", {"MaxCrashes": 2, "AnyOrder": "TRUE"}, {}),
-                  ("midyn", {"MaxCrashes": 1, "AnyOrder": "FALSE", "MaxAdds": 1}, {})]
+                  ("midyn", {"MaxCrashes": 1, "AnyOrder": "FALSE", "MaxAdds": 1}, {}),
+                  # start-window expiry: a kill at any point of a workflow that must never start / a stage that is skipped
+                  ("wfexpired", {"MaxCrashes": 1, "AnyOrder": "FALSE"}, {}), ("expired", {"MaxCrashes": 1, "AnyOrder": "FALSE"}, {})]
                + ([] if quick else [(n, {"MaxCrashes": 2, "AnyOrder": "FALSE", "MaxSweeps": 1}, {}) for n in
                                     ("chain2", "diamond", "failbranch", "firstof", "cycle2")]),
         )
